@@ -201,7 +201,14 @@ struct Run {
         // "replace by NULL" keeps the old value and is not covered by any documentation
         bool nullval = (api == 0 || api == 3) && s.chance(1, 24) && !present;
         std::string v = nullval ? std::string() : gen_val(api == 1 || api == 2);
-        if (api == 2) v = v.substr(0, 20);
+        if (api == 2) {
+            v = v.substr(0, 20);
+            if (s.chance(1, 8)) {   // formatted length exactly around the 1024 * 2^k sizes of the library's formatting buffer
+                static const size_t edge[] = {1024, 2048, 4096};
+                size_t len = edge[s.range(0, 2)] + (size_t)s.range(0, 3) - 2;
+                v.clear(); uint32_t x = (uint32_t)s.u8() + 5; for (size_t i = 0; i < len; i++) { x = x * 1103515245u + 12345u; v.push_back((char)('a' + (x >> 16) % 26)); }
+            }
+        }
         Buf kb(k), vb(v);
         Buf *vs = (api == 1 || api == 2) ? Buf::cstr(v) : nullptr;
         qtreetbl_obj_t *rootb = t->root;
